@@ -143,6 +143,7 @@ impl<T> Run<T> {
 
     fn poll_task(&mut self, i: usize) {
         let mut spins = 0u64;
+        let started = std::time::Instant::now();
         loop {
             let Some(f) = self.tasks[i].as_mut() else { return };
             match crate::util::poll_once(f.as_mut()) {
@@ -162,7 +163,8 @@ impl<T> Run<T> {
                     } else {
                         std::thread::yield_now();
                     }
-                    if spins > 200_000 {
+                    // wall-clock, generous: on a loaded machine a long storage call takes a while
+                    if spins > 200_000 && started.elapsed().as_secs() > 900 {
                         panic!("task {i} neither parks nor finishes (machinery error)");
                     }
                 }
